@@ -382,7 +382,7 @@ class TempModules:
 def root_class(mod):
     from dataclass_wizard import JSONWizard
     roots = [v for v in vars(mod).values()
-             if isinstance(v, type) and v.__module__ == mod.__name__ and issubclass(v, JSONWizard)]
+             if isinstance(v, type) and v.__module__ == mod.__name__ and JSONWizard in v.__mro__]
     return roots
 
 
@@ -627,9 +627,14 @@ def groups_missing_or_mixed(doc):
 
 # ----------------------------------------------------------------------------- the oracle for one (doc, flags)
 
-def classify_load_error(e):
-    n = type(e).__name__
-    return n
+def _fail(ctx, kind, case, what, key=None, detail=None):
+    """ctx.fail, keeping at most three recorded instances of one attributed class (the rest are counted), so that
+    the bounded failure list stays available for unattributed failures"""
+    if key is not None:
+        ctx.count('attributed:' + key)
+        if ctx.kind_counts['attributed:' + key] > 3:
+            return
+    ctx.fail(kind, case, what, key=key, detail=detail)
 
 
 def oracle(ctx, tm, case, doc, doc_text, experimental, force_strings):
@@ -638,14 +643,14 @@ def oracle(ctx, tm, case, doc, doc_text, experimental, force_strings):
     try:
         src = generate(doc_text, experimental, force_strings)
     except Exception as e:
-        ctx.fail(kind, case, f'generator raised {type(e).__name__}: {e}'[:300], key=None)
+        _fail(ctx, kind, case, f'generator raised {type(e).__name__}: {e}'[:300], key=None)
         return None
     try:
         src2 = generate(doc_text, experimental, force_strings)
     except Exception as e:
         src2 = f'<raised {e!r}>'
     if src2 != src:
-        ctx.fail('gen:deterministic', case, 'two generations of the same document in one process differ',
+        _fail(ctx, 'gen:deterministic', case, 'two generations of the same document in one process differ',
                  detail=dict(first=src[:2000], second=src2[:2000]))
     shapes = doc_shapes(doc, force_strings) | groups_missing_or_mixed(doc)
     scan = scan_lines(src)
@@ -655,20 +660,20 @@ def oracle(ctx, tm, case, doc, doc_text, experimental, force_strings):
         compile(src, '<generated>', 'exec')
     except SyntaxError as e:
         key = 'gs-key-not-identifier' if (diag['bad_field'] or diag['bad_class']) and 'key-not-identifier' in shapes else None
-        ctx.fail('gen:syntax', case, f'generated source is not valid Python: {e.msg} (line {e.lineno}: {(e.text or "").strip()[:80]!r})',
+        _fail(ctx, 'gen:syntax', case, f'generated source is not valid Python: {e.msg} (line {e.lineno}: {(e.text or "").strip()[:80]!r})',
                  key=key, detail=dict(src=src[:3000], diag=diag))
         return src
     try:
         mod = tm.load(src)
     except BaseException as e:
-        ctx.fail('gen:import', case, f'importing the generated module raised {type(e).__name__}: {e}'[:300],
+        _fail(ctx, 'gen:import', case, f'importing the generated module raised {type(e).__name__}: {e}'[:300],
                  key=None, detail=dict(src=src[:3000], diag=diag))
         return src
     roots = root_class(mod)
     elems = [doc] if isinstance(doc, dict) else [e for e in doc if isinstance(e, dict)]
     if not roots:
         if elems:
-            ctx.fail('gen:root', case, 'no JSONWizard root class in the generated module', detail=dict(src=src[:3000]))
+            _fail(ctx, 'gen:root', case, 'no JSONWizard root class in the generated module', detail=dict(src=src[:3000]))
         return src
     if len(roots) > 1 or diag['dup_class'] or diag['shadow']:
         pass
@@ -678,7 +683,7 @@ def oracle(ctx, tm, case, doc, doc_text, experimental, force_strings):
             inst = root.from_dict(json.loads(json.dumps(el)))
         except Exception as e:
             key = attribute_load_failure(e, diag, shapes)
-            ctx.fail('gen:load', case, f'{root.__name__}.from_dict(source element {idx}) raised {type(e).__name__}: '
+            _fail(ctx, 'gen:load', case, f'{root.__name__}.from_dict(source element {idx}) raised {type(e).__name__}: '
                      + str(e).replace('\n', ' ')[:260], key=key, detail=dict(src=src[:3000], element=el, diag=diag, shapes=sorted(shapes)))
             continue
         try:
@@ -688,13 +693,13 @@ def oracle(ctx, tm, case, doc, doc_text, experimental, force_strings):
             ctx.notes.setdefault('type_ok_errors', []).append(repr(e)[:200])
         if not ok:
             key = 'gs-duplicate-class-name' if diag['dup_class'] else None
-            ctx.fail('gen:types', case, f'loaded values do not have the inferred types: {inst!r}'[:400], key=key,
+            _fail(ctx, 'gen:types', case, f'loaded values do not have the inferred types: {inst!r}'[:400], key=key,
                      detail=dict(src=src[:3000], element=el))
         missing = []
         keys_have_fields(el, inst, [], missing)
         if missing:
             key = 'gs-duplicate-class-name' if diag['dup_class'] else None
-            ctx.fail('gen:fields', case, f'keys without a field in the loaded classes: {missing[:4]!r}', key=key,
+            _fail(ctx, 'gen:fields', case, f'keys without a field in the loaded classes: {missing[:4]!r}', key=key,
                      detail=dict(src=src[:3000], element=el))
     return src
 
